@@ -32,9 +32,12 @@ Fixpoint first_bad_list (wl : list string) (l : list pyast) : option string :=
   end.
 
 Lemma first_bad_node wl k n cs :
-  first_bad wl (Node k n cs) = if whitelisted wl k then first_bad_list wl cs else Some k.
+  first_bad wl (Node k n cs) =
+  if whitelisted wl k then (if reserved_name k n then Some k else first_bad_list wl cs)
+  else Some k.
 Proof.
-  cbn. destruct (whitelisted wl k); [|reflexivity].
+  cbn [first_bad]. destruct (whitelisted wl k); [|reflexivity].
+  destruct (reserved_name k n); [reflexivity|].
   induction cs as [|c r IH]; [reflexivity|].
   cbn. destruct (first_bad wl c); [reflexivity|exact IH].
 Qed.
@@ -61,11 +64,7 @@ Section EvalEq.
     end.
 
   Definition eval_name (n : nat) : list nat * outcome :=
-    if Nat.eqb n DEBUG then ([], Val VTrue)
-    else match env n with
-         | Some i => ([], Val (VObj i))
-         | None => if Nat.eqb n BUILTINS then ([], Val VBuiltins) else ([], NameErr n)
-         end.
+    match env n with Some i => ([], Val (VObj i)) | None => ([], NameErr n) end.
 
   Definition eval_boolop (cs : list pyast) : list nat * outcome :=
     match cs with
@@ -110,18 +109,18 @@ Lemma find_app {A} (p : A -> bool) l1 l2 :
   find p (l1 ++ l2) = match find p l1 with Some x => Some x | None => find p l2 end.
 Proof. induction l1 as [|x l1 IH]; cbn; [reflexivity|]. destruct (p x); auto. Qed.
 
-Definition not_wl (wl : list string) (k : string) : bool := negb (whitelisted wl k).
-
-(* the node reported is the first non-whitelisted one in visit order *)
+(* the node reported is the first bad one (non-whitelisted class, or one of
+   the two reserved names) in visit order *)
 Lemma first_bad_preorder wl t :
-  first_bad wl t = find (not_wl wl) (preorder t).
+  first_bad wl t = option_map fst (find (bad_node wl) (preorder_nodes t)).
 Proof.
   induction t as [k n cs IH] using pyast_ind'.
-  rewrite first_bad_node. cbn [preorder find]. unfold not_wl at 1.
-  destruct (whitelisted wl k); cbn [negb]; [|reflexivity].
+  rewrite first_bad_node. cbn [preorder_nodes find]. unfold bad_node at 1. cbn [fst snd].
+  destruct (whitelisted wl k); cbn [negb orb]; [|reflexivity].
+  destruct (reserved_name k n); [reflexivity|].
   induction IH as [|c r Hc _ IHr]; [reflexivity|].
-  cbn [first_bad_list flat_map]. rewrite find_app, <- Hc.
-  destruct (first_bad wl c); [reflexivity|exact IHr].
+  cbn [first_bad_list flat_map]. rewrite find_app, Hc.
+  destruct (find (bad_node wl) (preorder_nodes c)); [reflexivity|exact IHr].
 Qed.
 
 Lemma find_first {A} (p : A -> bool) l x :
@@ -142,40 +141,87 @@ Proof.
   destruct (p y); cbn; [split; discriminate|exact IH].
 Qed.
 
-Lemma negb_not_wl wl l :
-  forallb (fun y => negb (not_wl wl y)) l = forallb (whitelisted wl) l.
-Proof.
-  induction l as [|y l IH]; cbn; [reflexivity|].
-  unfold not_wl at 1. now rewrite negb_involutive, IH.
-Qed.
-
 Lemma rejected_first wl t k :
   first_bad wl t = Some k ->
-  exists before after,
-    preorder t = before ++ k :: after /\
-    whitelisted wl k = false /\
-    forallb (whitelisted wl) before = true.
+  exists before n after,
+    preorder_nodes t = before ++ (k, n) :: after /\
+    bad_node wl (k, n) = true /\
+    forallb (fun p => negb (bad_node wl p)) before = true.
 Proof.
-  rewrite first_bad_preorder. intros H.
-  destruct (find_first _ _ _ H) as [l1 [l2 [E [Hk Hl]]]].
-  exists l1, l2. split; [exact E|]. split.
-  - unfold not_wl in Hk. now apply negb_true_iff in Hk.
-  - now rewrite negb_not_wl in Hl.
+  rewrite first_bad_preorder.
+  destruct (find (bad_node wl) (preorder_nodes t)) as [[k' n]|] eqn:H; [|discriminate].
+  intros [= <-]. destruct (find_first _ _ _ H) as [l1 [l2 [E [Hk Hl]]]].
+  exists l1, n, l2. auto.
 Qed.
 
 Lemma accepted_iff wl t :
-  first_bad wl t = None <-> forallb (whitelisted wl) (preorder t) = true.
-Proof. now rewrite first_bad_preorder, find_none_iff, negb_not_wl. Qed.
+  first_bad wl t = None <->
+  forallb (fun p => negb (bad_node wl p)) (preorder_nodes t) = true.
+Proof.
+  rewrite first_bad_preorder, <- find_none_iff.
+  destruct (find (bad_node wl) (preorder_nodes t)); cbn; split; congruence.
+Qed.
 
 Lemma rejected_iff wl t :
   (exists k, first_bad wl t = Some k) <->
-  exists k, In k (preorder t) /\ whitelisted wl k = false.
+  exists p, In p (preorder_nodes t) /\ bad_node wl p = true.
 Proof.
   split.
-  - intros [k H]. destruct (rejected_first _ _ _ H) as [b [a [E [Hk _]]]].
-    exists k. split; [|exact Hk]. rewrite E. apply in_or_app. right. now left.
-  - intros [k [Hin Hk]]. destruct (first_bad wl t) as [k'|] eqn:E; [eauto|].
-    apply accepted_iff in E. rewrite forallb_forall in E. rewrite (E k Hin) in Hk. discriminate.
+  - intros [k H]. destruct (rejected_first _ _ _ H) as [b [n [a [E [Hk _]]]]].
+    exists (k, n). split; [|exact Hk]. rewrite E. apply in_or_app. right. now left.
+  - intros [p [Hin Hk]]. destruct (first_bad wl t) as [k'|] eqn:E; [eauto|].
+    apply accepted_iff in E. rewrite forallb_forall in E. specialize (E p Hin).
+    rewrite Hk in E. discriminate.
+Qed.
+
+Lemma preorder_map_nodes t : preorder t = map fst (preorder_nodes t).
+Proof.
+  induction t as [k n cs IH] using pyast_ind'. cbn. f_equal.
+  induction IH as [|c r Hc _ IHr]; [reflexivity|].
+  cbn. now rewrite map_app, Hc, IHr.
+Qed.
+
+Lemma accepted_all_whitelisted wl t :
+  first_bad wl t = None -> forallb (whitelisted wl) (preorder t) = true.
+Proof.
+  intros H. apply accepted_iff in H. rewrite preorder_map_nodes.
+  rewrite forallb_forall in *. intros k Hk. apply in_map_iff in Hk.
+  destruct Hk as [[k' n] [<- Hp]]. specialize (H _ Hp).
+  unfold bad_node in H. cbn in *. apply negb_true_iff, orb_false_iff in H.
+  destruct H as [H _]. now apply negb_false_iff in H.
+Qed.
+
+Lemma names_spec t n : In n (names t) <-> In ("Name", n) (preorder_nodes t).
+Proof.
+  induction t as [k m cs IH] using pyast_ind'.
+  cbn [names preorder_nodes]. rewrite in_app_iff. cbn [In].
+  assert (Hcs : In n (flat_map names cs) <-> In ("Name", n) (flat_map preorder_nodes cs)).
+  { induction IH as [|c r Hc _ IHr]; [tauto|]. cbn. rewrite !in_app_iff, Hc, IHr. tauto. }
+  rewrite Hcs. destruct (String.eqb_spec k "Name") as [->|Hne].
+  - cbn. split.
+    + intros [[<-|[]]|H]; auto.
+    + intros [[= <-]|H]; auto.
+  - cbn. split.
+    + intros [[]|H]; auto.
+    + intros [[= E _]|H]; [congruence|auto].
+Qed.
+
+(* an accepted tree never mentions `__debug__` or `__builtins__` *)
+Lemma accepted_no_reserved wl t :
+  first_bad wl t = None -> ~ In DEBUG (names t) /\ ~ In BUILTINS (names t).
+Proof.
+  intros H. apply accepted_iff in H. rewrite forallb_forall in H.
+  split; intros Hn; apply names_spec in Hn; specialize (H _ Hn);
+    unfold bad_node, reserved_name in H; cbn in H;
+    rewrite orb_true_r in H; discriminate.
+Qed.
+
+(* conversely a tree that mentions one of them is rejected by every whitelist *)
+Lemma reserved_rejected wl t n :
+  n = DEBUG \/ n = BUILTINS -> In n (names t) -> exists k, first_bad wl t = Some k.
+Proof.
+  intros Hn Hin. apply rejected_iff. exists ("Name", n). split; [now apply names_spec|].
+  unfold bad_node, reserved_name. cbn. destruct Hn as [-> | ->]; cbn; now rewrite orb_true_r.
 Qed.
 
 (* ---------- evaluation never reports "rejected" itself ---------- *)
@@ -199,8 +245,7 @@ Proof.
   destruct (String.eqb k "Expression").
   { destruct cs as [|b [|? ?]]; try exact I. now inversion IH. }
   destruct (String.eqb k "Name").
-  { unfold eval_name. destruct (Nat.eqb n DEBUG); [exact I|].
-    destruct (env n); [exact I|]. destruct (Nat.eqb n BUILTINS); exact I. }
+  { unfold eval_name. destruct (env n); exact I. }
   destruct (String.eqb k "BoolOp"); [|exact I].
   unfold eval_boolop.
   destruct cs as [|[op n0 [|? ?]] vs]; try exact I.
@@ -268,6 +313,7 @@ Proof.
   induction t as [k n cs IH] using pyast_ind'.
   cbn [binop_wf]. rewrite first_bad_node, andb_true_iff. intros [Hb Hcs] Hacc.
   destruct (whitelisted completion_whitelist k) eqn:Hk; [|discriminate].
+  destruct (reserved_name k n); [discriminate|].
   apply first_bad_list_none in Hacc.
   assert (Hsafe : In k safe6).
   { destruct (completion_wl_cases k Hk) as [->|H]; [|exact H]. exfalso.
@@ -331,8 +377,6 @@ Definition good (env : nat -> option nat) (t : pyast) (r : list nat * outcome) :
   (forall i, In i (fst r) -> from_env env t i) /\
   match snd r with
   | Val (VObj i) => from_env env t i
-  | Val VTrue => In DEBUG (names t)
-  | Val VBuiltins => In BUILTINS (names t) /\ env BUILTINS = None
   | NameErr n => In n (names t) /\ env n = None
   | _ => True
   end.
@@ -344,8 +388,6 @@ Definition good_list (env : nat -> option nat) (l : list pyast) (r : list nat * 
   (forall i, In i (fst r) -> from_list env l i) /\
   match snd r with
   | Val (VObj i) => from_list env l i
-  | Val VTrue => In DEBUG (flat_map names l)
-  | Val VBuiltins => In BUILTINS (flat_map names l) /\ env BUILTINS = None
   | NameErr n => In n (flat_map names l) /\ env n = None
   | _ => True
   end.
@@ -359,10 +401,8 @@ Lemma good_head env c r res : good env c res -> good_list env (c :: r) res.
 Proof.
   intros [Ht Ho]. split.
   - intros i Hi. apply from_env_head. auto.
-  - destruct (snd res) as [k| |[i| |]|m|]; auto.
+  - destruct (snd res) as [k| |[i]|m|]; auto.
     + now apply from_env_head.
-    + cbn. apply in_or_app. now left.
-    + destruct Ho. split; [cbn; apply in_or_app; now left|assumption].
     + destruct Ho. split; [cbn; apply in_or_app; now left|assumption].
 Qed.
 
@@ -370,10 +410,8 @@ Lemma good_tail env c r res : good_list env r res -> good_list env (c :: r) res.
 Proof.
   intros [Ht Ho]. split.
   - intros i Hi. apply from_list_tail. auto.
-  - destruct (snd res) as [k| |[i| |]|m|]; auto.
+  - destruct (snd res) as [k| |[i]|m|]; auto.
     + now apply from_list_tail.
-    + cbn. apply in_or_app. now right.
-    + destruct Ho. split; [cbn; apply in_or_app; now right|assumption].
     + destruct Ho. split; [cbn; apply in_or_app; now right|assumption].
 Qed.
 
@@ -387,7 +425,7 @@ Proof.
   destruct (py_eval env truthy c) as [tr [k| |x|m|]]; try exact Hh.
   assert (Htx : forall i, In i (tr ++ tested x)%list -> from_list env (c :: c2 :: r2) i).
   { intros i Hi. apply in_app_or in Hi. destruct Hi as [Hi|Hi]; [now apply (proj1 Hh)|].
-    destruct x as [j| |]; cbn in Hi; try tauto. destruct Hi as [<-|[]]. exact (proj2 Hh). }
+    destruct x as [j]; cbn in Hi. destruct Hi as [<-|[]]. exact (proj2 Hh). }
   destruct (Bool.eqb (truth truthy x) is_and).
   - pose proof (good_tail env c _ _ IH) as Ht.
     destruct (eval_ops env truthy is_and (c2 :: r2)) as [tr' o]. split.
@@ -405,9 +443,8 @@ Proof.
   assert (G : forall m, In m (flat_map names cs) -> In m (names (Node k n cs))).
   { intros m H. rewrite names_node. apply in_or_app. now right. }
   intros [Ht Ho]. split; [auto|].
-  destruct (snd res) as [k'| |[i| |]|m|]; auto.
-  - destruct Ho; auto.
-  - destruct Ho; auto.
+  destruct (snd res) as [k'| |[i]|m|]; auto.
+  destruct Ho; auto.
 Qed.
 
 Lemma py_eval_good env truthy t : good env t (py_eval env truthy t).
@@ -419,11 +456,9 @@ Proof.
     inversion IH as [|? ? Hb _]; subst. apply good_list_node. now apply good_head. }
   destruct (String.eqb k "Name") eqn:En.
   { assert (Hin : In n (names (Node k n cs))) by (rewrite names_node, En; now left).
-    unfold eval_name. destruct (Nat.eqb_spec n DEBUG) as [->|Hd].
-    { split; [intros i []|exact Hin]. }
-    destruct (env n) as [i|] eqn:E.
+    unfold eval_name. destruct (env n) as [i|] eqn:E.
     { split; [intros j []|]. exists n. auto. }
-    destruct (Nat.eqb_spec n BUILTINS) as [->|Hb]; (split; [intros j []|]); cbn; auto. }
+    split; [intros j []|]. cbn. auto. }
   destruct (String.eqb k "BoolOp"); [|split; [intros i []|exact I]].
   unfold eval_boolop.
   destruct cs as [|[op n0 [|? ?]] vs]; try (split; [intros i []|exact I]).
@@ -448,4 +483,8 @@ Proof. vm_compute. reflexivity. Qed.
 
 Lemma contains_bad_rejected wl t k :
   In k (preorder t) -> whitelisted wl k = false -> exists k', first_bad wl t = Some k'.
-Proof. intros H1 H2. apply rejected_iff. eauto. Qed.
+Proof.
+  intros H1 H2. apply rejected_iff. rewrite preorder_map_nodes in H1.
+  apply in_map_iff in H1. destruct H1 as [[k' n] [E Hp]]. cbn in E. subst k'.
+  exists (k, n). split; [exact Hp|]. unfold bad_node. cbn. now rewrite H2.
+Qed.
